@@ -90,7 +90,9 @@ Section Decision.
       /\ fst (trun step finished s0 sch) = fold_left step (map snd pre) s0
       /\ (forall x, In x pre -> fst x <= snd (trun step finished s0 sch))
       /\ (forall x, In x post -> snd (trun step finished s0 sch) <= fst x)
-      /\ (forall c1 c2, map snd pre = c1 ++ c2 -> c2 <> [] -> finished (fold_left step c1 s0) = false).
+      /\ (forall c1 c2, map snd pre = c1 ++ c2 -> c2 <> [] -> finished (fold_left step c1 s0) = false)
+      /\ ((pre = [] /\ snd (trun step finished s0 sch) = 0)
+          \/ exists pre' te, pre = pre' ++ [te] /\ snd (trun step finished s0 sch) = fst te).
   Proof.
     intros sch s0 Hso Hfin. unfold trun in *. destruct (finished s0) eqn:Hf0.
     - rewrite (trun_finished step finished) in * by exact Hf0. exists [], sch. cbn. repeat split; auto.
@@ -108,6 +110,7 @@ Section Decision.
           rewrite app_assoc in Hc. apply app_inj_tail in Hc as [Hc _].
           destruct (finished (fold_left step c1 s0)) eqn:E; [|reflexivity].
           pose proof (finished_mono c1 c2 s0 E) as Q. rewrite <- Hc in Q. exact (eq_trans (eq_sym Q) H2).
+        * right. exists pre, te. auto.
   Qed.
 End Decision.
 
@@ -184,7 +187,8 @@ Lemma b_decision : forall {A} (acc : A -> value -> A) early a0 st pr ps sch,
     /\ b_stop acc early requests a0 (map snd pre) = true
     /\ (forall c1 c2, map snd pre = c1 ++ c2 -> c2 <> [] -> b_stop acc early requests a0 c1 = false)
     /\ (forall x, In x pre -> fst x <= snd r) /\ (forall x, In x post -> snd r <= fst x)
-    /\ snd r <= p_timeout pr.
+    /\ snd r <= p_timeout pr
+    /\ ((pre = [] /\ snd r = 0) \/ exists pre' te, pre = pre' ++ [te] /\ snd r = fst te).
 Proof.
   intros A acc early a0 st pr ps sch Hs requests r.
   assert (Hreq : (0 <= requests)%Z) by (unfold requests; lia).
@@ -194,8 +198,8 @@ Proof.
   destruct (trun_within (bstep acc early requests) (fun s => phase_eqb (b_phase s) Done) Habs (p_timeout pr) sch
               (b_init early requests a0)) as [H1 H2]; auto.
   { intros es He. apply phase_eqb_done. apply in_hard_b; assumption. }
-  destruct (trun_decision _ _ Habs sch _ Hso H1) as [pre [post (E & Hf & Hpre & Hpost & Hmin)]].
-  fold r in H1, H2, Hf, Hpre, Hpost.
+  destruct (trun_decision _ _ Habs sch _ Hso H1) as [pre [post (E & Hf & Hpre & Hpost & Hmin & Hlast)]].
+  fold r in H1, H2, Hf, Hpre, Hpost, Hlast.
   assert (Hw : consumed (b_stop acc early requests a0) (map snd pre) = map snd pre).
   { apply b_whole; [exact Hreq|]. intros c1 c2 Hc Hn Q. specialize (Hmin c1 c2 Hc Hn).
     unfold brun in Q. apply phase_eqb_done in Q. congruence. }
@@ -216,7 +220,8 @@ Lemma m_decision : forall {A} (acc : A -> value -> A) early a0 st pr ps sch,
     /\ m_stop acc early requests a0 (map snd pre) = true
     /\ (forall c1 c2, map snd pre = c1 ++ c2 -> c2 <> [] -> m_stop acc early requests a0 c1 = false)
     /\ (forall x, In x pre -> fst x <= snd r) /\ (forall x, In x post -> snd r <= fst x)
-    /\ snd r <= p_timeout pr.
+    /\ snd r <= p_timeout pr
+    /\ ((pre = [] /\ snd r = 0) \/ exists pre' te, pre = pre' ++ [te] /\ snd r = fst te).
 Proof.
   intros A acc early a0 st pr ps sch Hs requests r.
   assert (Hreq : (0 <= requests)%Z) by (unfold requests; lia).
@@ -226,8 +231,8 @@ Proof.
   destruct (trun_within (mstep acc early requests) (fun s => phase_eqb (m_phase s) Done) Habs (p_timeout pr) sch
               (m_init early requests a0)) as [H1 H2]; auto.
   { intros es He. apply phase_eqb_done. apply in_hard_m; assumption. }
-  destruct (trun_decision _ _ Habs sch _ Hso H1) as [pre [post (E & Hf & Hpre & Hpost & Hmin)]].
-  fold r in H1, H2, Hf, Hpre, Hpost.
+  destruct (trun_decision _ _ Habs sch _ Hso H1) as [pre [post (E & Hf & Hpre & Hpost & Hmin & Hlast)]].
+  fold r in H1, H2, Hf, Hpre, Hpost, Hlast.
   assert (Hw : consumed (m_stop acc early requests a0) (map snd pre) = map snd pre).
   { apply m_whole; [exact Hreq|]. intros c1 c2 Hc Hn Q. specialize (Hmin c1 c2 Hc Hn).
     unfold mrun in Q. apply phase_eqb_done in Q. congruence. }
@@ -237,4 +242,112 @@ Proof.
   - apply Rd. exact H1.
   - intros c1 c2 Hc Hn. destruct (consumed_spec (m_stop acc early requests a0) (map snd pre)) as [rest (Hc' & Hm' & _)].
     rewrite Hw in Hm'. apply (Hm' c1 c2 Hc Hn).
+Qed.
+
+(* ------------------------------------------------------------------------------------------- *)
+(* where the special events of a schedule are *)
+
+Lemma sch_hard_time : forall st pr ps sch t, In sch (schedules (timeline st pr ps)) -> In (t, EHard) sch -> t = p_timeout pr.
+Proof.
+  intros st pr ps sch t Hs Hin. apply (timeline_schedule st pr ps sch Hs) in Hin.
+  apply in_app_or in Hin as [Hin|Hin].
+  - destruct (template_of st); cbn in Hin; intuition congruence.
+  - exfalso. apply in_flat_map in Hin as [p0 [_ Hin]]. unfold deliver in Hin.
+    destruct (pv_beh p0) as [v| |]; [destruct ((pv_time p0 <=? p_timeout pr) || pv_deaf p0); [destruct (accepts st pr (v_raw v))|]
+                                    | destruct ((pv_time p0 <=? p_timeout pr) || pv_deaf p0) |];
+      cbn in Hin; intuition congruence.
+Qed.
+
+Lemma sch_soft_time : forall st pr ps sch t, In sch (schedules (timeline st pr ps)) -> In (t, ESoft) sch -> t = p_timeout pr / 2.
+Proof.
+  intros st pr ps sch t Hs Hin. apply (timeline_schedule st pr ps sch Hs) in Hin.
+  apply in_app_or in Hin as [Hin|Hin].
+  - destruct (template_of st); cbn in Hin; intuition congruence.
+  - exfalso. apply in_flat_map in Hin as [p0 [_ Hin]]. unfold deliver in Hin.
+    destruct (pv_beh p0) as [v| |]; [destruct ((pv_time p0 <=? p_timeout pr) || pv_deaf p0); [destruct (accepts st pr (v_raw v))|]
+                                    | destruct ((pv_time p0 <=? p_timeout pr) || pv_deaf p0) |];
+      cbn in Hin; intuition congruence.
+Qed.
+
+Lemma sch_has_soft : forall st pr ps sch, template_of st <> TFirst -> In sch (schedules (timeline st pr ps)) ->
+  In (p_timeout pr / 2, ESoft) sch.
+Proof.
+  intros st pr ps sch Ht H. apply (timeline_schedule st pr ps sch H). apply in_or_app. left.
+  destruct (template_of st); cbn; auto; congruence.
+Qed.
+
+Lemma msgs_in_resp : forall {V} (es : list (event V)) p v, In (EResp p v) es -> (1 <= msgs es)%Z.
+Proof.
+  intros V es p v H. apply in_split in H as [a [b ->]]. rewrite msgs_app. 
+  pose proof (nresp_nonneg a). pose proof (nerr_nonneg a). pose proof (nresp_nonneg b). pose proof (nerr_nonneg b).
+  unfold msgs in *. unfold nresp at 2, nerr at 2. cbn [resps filter is_err length]. fold (nresp b) (nerr b). lia.
+Qed.
+
+Lemma msgs_nonneg : forall {V} (es : list (event V)), (0 <= msgs es)%Z.
+Proof. intros. unfold msgs. pose proof (nresp_nonneg es). pose proof (nerr_nonneg es). lia. Qed.
+
+Lemma gives_ok_event : forall st pr ps sch p0 v, In sch (schedules (timeline st pr ps)) -> In p0 ps ->
+  gives_ok st pr p0 v -> In (pv_time p0, EResp (pv_id p0) v) sch.
+Proof. intros st pr ps sch p0 v Hs Hp [[Hb Hg] Ha]. apply (resp_sch st pr ps); assumption. Qed.
+
+Lemma event_gives_ok : forall st pr ps sch t p v, In sch (schedules (timeline st pr ps)) -> In (t, EResp p v) sch ->
+  exists p0, In p0 ps /\ gives_ok st pr p0 v /\ t = pv_time p0.
+Proof.
+  intros st pr ps sch t p v Hs Hin. destruct (sch_resp _ _ _ _ _ _ _ Hs Hin) as [p0 (H1 & H2 & H3 & H4 & H5)].
+  exists p0. unfold gives_ok, gives. auto.
+Qed.
+
+(* ------------------------------------------------------------------------------------------- *)
+(* best / latest on the timed layer *)
+
+Lemma best_outcome_spec : forall st pr ps r t,
+  template_of st = TBest -> In (r, t) (outcomes st pr ps) ->
+  t <= p_timeout pr /\
+  ((exists p0 v, r = result_of (Some v) /\ In p0 ps /\ gives_ok st pr p0 v /\ pv_time p0 <= t
+      /\ forall p1 v1, In p1 ps -> gives_ok st pr p1 v1 -> pv_time p1 < t ->
+                       sgt (vscore st pr v1) (vscore st pr v) = false)
+   \/ (r = RErr /\ forall p1 v1, In p1 ps -> gives_ok st pr p1 v1 -> p_timeout pr <= pv_time p1)).
+Proof.
+  intros st pr ps r t Et H. unfold outcomes in H. rewrite Et in H.
+  apply in_map_iff in H as [sch [H Hs]].
+  destruct (b_decision (upd_best (vscore st pr) sgt) no_early None st pr ps sch Hs)
+    as [pre [post (E & Hd & Ha & Hst & Hmin & Hpre & Hpost & HT & _)]].
+  destruct (trun _ _ _ sch) as [s t']. cbn [fst snd] in *. rewrite Hd in H. injection H as <- <-.
+  split; [exact HT|].
+  assert (Hin_sch : forall x, In x pre -> In x sch) by (intros x Hx; rewrite E; apply in_or_app; left; exact Hx).
+  rewrite Ha. unfold accf. destruct (fold_left _ (resps (map snd pre)) None) as [v|] eqn:Eb.
+  - left. pose proof (best_in _ _ _ _ Eb) as Hv. apply in_resps_map in Hv as [tv [p Hv]].
+    destruct (event_gives_ok _ _ _ _ _ _ _ Hs (Hin_sch _ Hv)) as [p0 (Hp0 & Hg & ->)].
+    exists p0, v. split; [reflexivity|]. split; [exact Hp0|]. split; [exact Hg|]. split.
+    + apply (Hpre _ Hv).
+    + intros p1 v1 Hp1 Hg1 Hlt.
+      pose proof (gives_ok_event _ _ _ _ _ _ Hs Hp1 Hg1) as Hx. rewrite E in Hx. apply in_app_or in Hx as [Hx|Hx].
+      * assert (Hv1 : In v1 (resps (map snd pre))).
+        { apply in_resps. exists (pv_id p1). apply in_map_iff. exists (pv_time p1, EResp (pv_id p1) v1). auto. }
+        destruct (best_unbeaten (vscore st pr) sgt (resps (map snd pre)) v) as [_ Hun]; auto.
+        -- intros x y z _ _ _. apply sgt_trans.
+        -- intros x _. apply sgt_irrefl.
+      * apply Hpost in Hx. cbn in Hx. lia.
+  - right. split; [reflexivity|]. apply best_none_iff in Eb.
+    intros p1 v1 Hp1 Hg1.
+    pose proof (gives_ok_event _ _ _ _ _ _ Hs Hp1 Hg1) as Hx. rewrite E in Hx. apply in_app_or in Hx as [Hx|Hx].
+    + exfalso. assert (Hv1 : In v1 (resps (map snd pre))).
+      { apply in_resps. exists (pv_id p1). apply in_map_iff. exists (pv_time p1, EResp (pv_id p1) v1). auto. }
+      rewrite Eb in Hv1. destruct Hv1.
+    + pose proof (Hpost _ Hx) as Ht. cbn in Ht.
+      destruct (N.le_gt_cases (p_timeout pr) (pv_time p1)) as [Q|Q]; [exact Q|]. exfalso.
+      unfold b_stop, no_early in Hst. cbn [orb] in Hst. rewrite orb_false_r in Hst.
+      apply orb_true_iff in Hst as [Hst|Hst]; [apply orb_true_iff in Hst as [Hst|Hst]|].
+      * (* all nodes heard of, although this one's answer is still to come *)
+        pose proof (sch_msgs _ _ _ _ Hs) as Hm. rewrite E, map_app, msgs_app in Hm.
+        assert (G : (1 <= msgs (map snd post))%Z).
+        { apply (msgs_in_resp _ (pv_id p1) v1). apply in_map_iff. exists (pv_time p1, EResp (pv_id p1) v1). auto. }
+        unfold tevent in *. lia.
+      * apply existsb_exists in Hst as [e [He Hh]]. destruct e; try discriminate.
+        apply in_map_iff in He as [[th e] [He Hin]]. cbn in He. subst e.
+        pose proof (sch_hard_time _ _ _ _ _ Hs (Hin_sch _ Hin)) as ->.
+        apply Hpre in Hin. cbn in Hin. lia.
+      * apply soft_resp_spec in Hst as [p1' [p2' (Hp & _ & Hr)]].
+        assert (Hne : existsb is_resp (map snd pre) = true) by (rewrite Hp, existsb_app, Hr; reflexivity).
+        apply existsb_resp_resps in Eb. congruence.
 Qed.
